@@ -364,3 +364,41 @@ def h_rcond(E, shape):
     E.prove(ok, "C09.rcond_reporting_same_linear_system")
     E.prove(land(common.eq_all(dx0, dx1), common.eq_all(dy0, dy1), common.eq_all(x0, x1)), "C09.rcond_reporting_same_step")
     E.prove(rc0 is None, "C09.no_rcond_unless_requested")
+
+
+def h_globalized(E, shape):
+    """C05 for the Armijo line search at ANY Newton iteration: one step of the Globalized Newton
+    method from an arbitrary in-box Newton iterate (not the base point), exact arithmetic; every
+    point at which a user function is evaluated, and the iterate handed back, lies in the box.
+    The line search (30 trials in the code) is unwound `max_linesearch` trials."""
+    N = boot.mod("newton")
+    ctx = setup(E, dict(shape, newton="Globalized"))
+    n, m = ctx["n"], ctx["m"]
+    RealIterate = boot.mod("iterate").Iterate
+    lb, ub = ctx["spec"]["xl"], ctx["spec"]["xu"]
+    x = []
+    for j in range(n):
+        v = E.real(f"x{j}")
+        E.assume(land(lb[j] <= v, v <= ub[j]))
+        x.append(v)
+    y = [E.real(f"y{i}") for i in range(m)]
+    cur = RealIterate(ctx["user"], ctx["params"], arr(x), arr(y))
+    method = N.newton_method(ctx["user"], ctx["params"], ctx["orig"], ctx["dt"], ctx["rho"])
+    ls = dict(n=0)
+    max_ls = shape.get("max_linesearch", 2)
+
+    def counting(*a, **k):
+        ls["n"] += 1
+        if ls["n"] > max_ls:
+            raise Abort()
+        return RealIterate(*a, **k)
+
+    ncalls = len(ctx["spec"]["calls"])
+    N.Iterate = counting
+    try:
+        step = method.step(cur)
+    finally:
+        N.Iterate = RealIterate
+    for c in ctx["spec"]["calls"][ncalls:]:
+        E.prove(common.in_box(c[1], lb, ub), "C05.evaluation_point_in_box", info=dict(kind=c[0]))
+    E.prove(common.in_box(items(step.iterate.x), lb, ub), "C05.trial_iterate_in_box")
